@@ -411,7 +411,25 @@ func itoa(i int) string { return strconv.Itoa(i) }
 // c18Sig: the query/repository fields and external methods a predicate uses.
 func c18Sig(info *types.Info, n ast.Node, inModule func(*types.Package) bool) []string {
 	set := map[string]bool{}
+	c18SigInto(info, n, inModule, set, 0)
+	var out []string
+	for k := range set {
+		out = append(out, k)
+	}
+	sort.Strings(out)
+	return out
+}
+
+func c18SigInto(info *types.Info, n ast.Node, inModule func(*types.Package) bool, set map[string]bool, depth int) {
 	ast.Inspect(n, func(m ast.Node) bool {
+		// the predicate may delegate to a helper of the same package: its body belongs to the signature
+		if c, ok := m.(*ast.CallExpr); ok && depth < 2 && an.Current != nil {
+			if fn := an.Callee(info, c); fn != nil && fn.Pkg() != nil && inModule(fn.Pkg()) {
+				if hd := an.Current.Decl(fn); hd != nil && hd.Decl.Body != nil && hd.Pkg.TypesInfo == info && fn.Name() != "simplifyMultiRepo" {
+					c18SigInto(info, hd.Decl.Body, inModule, set, depth+1)
+				}
+			}
+		}
 		se, ok := m.(*ast.SelectorExpr)
 		if !ok {
 			return true
@@ -437,12 +455,6 @@ func c18Sig(info *types.Info, n ast.Node, inModule func(*types.Package) bool) []
 		}
 		return true
 	})
-	var out []string
-	for k := range set {
-		out = append(out, k)
-	}
-	sort.Strings(out)
-	return out
 }
 
 func c18Siblings(p *an.Prog, r *an.R) {
